@@ -40,6 +40,8 @@ def cases(tier, seed):
     for a in M.AA:
         for b in M.AA:
             yield {"s": a + b, "kind": "pair"}
+    for w in ["ALA", "MET", "GLYGLY", "METSERLYS", "HISTHRVALALA", "TYRILEPHEASN", "SERMETLYS", "LAA", "README", "ASP", "LYSARG"]:
+        yield {"s": w, "kind": "random", "o": 11}
     rng = gen.sub_rng(seed, ID)
     for i in range(6 if tier == "quick" else 40):
         yield {"s": gen.rand_seq(rng, rng.choice(["idp", "uniform", "hydrophobic"]), lo=1001, hi=3000), "kind": "random", "o": rng.randrange(1 << 30)}
